@@ -30,6 +30,34 @@ func SetNow(n int64) { vnow = n }
 //go:norace
 func Advance(d time.Duration) { vnow += int64(d) }
 
+// Elapse lets d of virtual time pass on the calling thread ("this operation
+// took d"): the clock advances and every armed timer whose deadline has been
+// reached expires, earliest deadline first. Unlike FireAny and the early-expiry
+// deviation, which let an armed timer expire whatever its duration, Elapse
+// respects durations: a timer re-armed for longer than d does not expire.
+//
+//go:norace
+func Elapse(d time.Duration) {
+	vnow += int64(d)
+	s := cur
+	if s == nil || s.over {
+		return
+	}
+	for {
+		best := -1
+		for i := 0; i < s.ntimers; i++ {
+			t := s.timers[i]
+			if t.armed && t.deadline <= vnow && (best < 0 || t.deadline < s.timers[best].deadline) {
+				best = i
+			}
+		}
+		if best < 0 {
+			return
+		}
+		s.fire(s.timers[best])
+	}
+}
+
 // Timer mirrors time.Timer (pre-Go-1.23 channel semantics: the channel has
 // capacity 1 and Stop/Reset do not drain it, which is what a go.mod with
 // `go 1.22` selects).
